@@ -37,54 +37,6 @@ theorem C09_lfp_stage_der {S : Store} {α : Nat → Bool} (hS : Positive S) {k :
     (h : lfpEval S α n k = true) : Der S α [] k :=
   der_of_prov n [] k (prov_of_lfpEval hS n k hk h)
 
-theorem cutEval_neg (S : Store) (α : Nat → Bool) (f : Nat) (A : List Nat) (k : Int) (hk : k ≠ 0) :
-    cutEval S α (f + 1) A (some (-k)) = !cutEval S α (f + 1) A (some k) := by
-  rw [cutEval_succ, cutEval_succ]
-  have h1 : ¬ (-k = 0) := by omega
-  simp only [h1, hk, ↓reduceIte, Int.natAbs_neg]
-  by_cases h : k < 0
-  · have h2 : ¬ (-k < 0) := by omega
-    simp only [h, h2, ↓reduceIte, Bool.not_not]
-  · have h2 : -k < 0 := by omega
-    simp only [h, h2, ↓reduceIte]
-
-theorem lfpEval_neg (S : Store) (α : Nat → Bool) (n : Nat) (k : Int) (hk : k ≠ 0) :
-    lfpEval S α n (some (-k)) = !lfpEval S α n (some k) := by
-  have h1 : ¬ (-k = 0) := by omega
-  cases n with
-  | zero =>
-    rw [lfpEval_zero, lfpEval_zero]
-    simp only [h1, hk, ↓reduceIte, Int.natAbs_neg]
-    by_cases h : k < 0
-    · have h2 : ¬ (-k < 0) := by omega
-      simp only [h, h2, ↓reduceIte, Bool.not_not]
-    · have h2 : -k < 0 := by omega
-      simp only [h, h2, ↓reduceIte]
-  | succ n =>
-    rw [lfpEval_succ, lfpEval_succ]
-    simp only [h1, hk, ↓reduceIte, Int.natAbs_neg]
-    by_cases h : k < 0
-    · have h2 : ¬ (-k < 0) := by omega
-      simp only [h, h2, ↓reduceIte, Bool.not_not]
-    · have h2 : -k < 0 := by omega
-      simp only [h, h2, ↓reduceIte]
-
-theorem cutEval_neg' (S : Store) (α : Nat → Bool) (f : Nat) (A : List Nat) (k : Int) (hk : k ≠ 0) :
-    cutEval S α (f + 1) A (some k) = !cutEval S α (f + 1) A (some (-k)) := by
-  rw [cutEval_neg _ _ _ _ _ hk, Bool.not_not]
-
-theorem lfpEval_neg' (S : Store) (α : Nat → Bool) (n : Nat) (k : Int) (hk : k ≠ 0) :
-    lfpEval S α n (some k) = !lfpEval S α n (some (-k)) := by
-  rw [lfpEval_neg _ _ _ _ hk, Bool.not_not]
-
-theorem posKey_of_nonneg (S : Store) {k : Int} (h : 0 ≤ k) : PosKey S (some k) := by
-  simp only [PosKey, posKey, h, ↓reduceIte]
-
-theorem neg_of_not_posKey {S : Store} {k : Int} (hk : ¬ PosKey S (some k)) : k < 0 := by
-  by_cases h0 : 0 ≤ k
-  · exact absurd (posKey_of_nonneg S h0) hk
-  · omega
-
 /-- **Cut evaluation = least fixpoint**, for every key (also a negated reference to a compound node at top level) and
     every atom assignment; the fuel `|nodes| + 1` of the executable definition suffices. -/
 theorem C09_cutEval_eq_lfp {S : Store} (hS : Positive S) (α : Nat → Bool) (k : Key) :
@@ -149,16 +101,6 @@ theorem C09_lfp_fixpoint_disj {S : Store} (hS : Positive S) (α : Nat → Bool) 
   have hnl : ¬ k < 0 := by omega
   simp only [hk0, ↓reduceIte, hn, hnl]
   rfl
-
-/-- A valuation of keys closed under the immediate-consequence operator (a pre-fixpoint that reads atoms from `α`). -/
-structure Closed (S : Store) (α : Nat → Bool) (ρ : Key → Bool) : Prop where
-  tt : ρ (some 0) = true
-  lit : ∀ (k : Int) id g e nm, k ≠ 0 → S.nodes[k.natAbs - 1]? = some (.atom id g e nm) →
-    (if k < 0 then !α k.natAbs else α k.natAbs) = true → ρ (some k) = true
-  conj : ∀ (k : Int) cs nm, 0 < k → S.nodes[k.natAbs - 1]? = some (.conj cs nm) →
-    (∀ c ∈ cs, ρ c = true) → ρ (some k) = true
-  disj : ∀ (k : Int) cs nm, 0 < k → S.nodes[k.natAbs - 1]? = some (.disj cs nm) →
-    (∃ c ∈ cs, ρ c = true) → ρ (some k) = true
 
 /-- Leastness: everything the iteration derives is true in every closed valuation. -/
 theorem C09_lfp_least {S : Store} (hS : Positive S) (α : Nat → Bool) {ρ : Key → Bool} (hρ : Closed S α ρ)
